@@ -301,7 +301,12 @@ impl VM {
                 }
                 OpCode::GetGlobal => {
                     let idx = self.read_u16();
-                    let value = self.globals[idx as usize];
+                    // a global that has not been assigned yet (stel x = x) reads as null, like a local
+                    let value = self
+                        .globals
+                        .get(idx as usize)
+                        .copied()
+                        .unwrap_or_else(Object::null);
                     self.push(value);
                 }
                 OpCode::SetLocal => {
